@@ -53,6 +53,9 @@ enum Break {
     Partial,
     /// rsync hangs; Routinator's rsync-timeout (5 s in these runs) kills it
     Timeout,
+    /// a chain of `depth` further CAs (distinct keys, or with `cycle` the last one re-using the first one's key)
+    /// below the first CA published in r, all published in r: with a small max-ca-depth its tail is too deep
+    Deep { depth: usize, cycle: bool },
 }
 
 #[derive(Serialize, Deserialize, Clone, Debug)]
@@ -126,6 +129,20 @@ fn twins(inp: &Input) -> (RepoSpec, RepoSpec, usize) {
                     for o in &mut ver.objects { if !matches!(o.kind, ObjKind::Other { .. }) || *fault == Fault::Missing { o.faults.push(*fault); } }
                 }
             }
+        }
+        Break::Deep { depth, cycle } => {
+            let parent = inside.first().expect("a CA inside r").clone();
+            let (host, module) = { let m = inp.r.split_once('/').expect("host/module"); (m.0.to_string(), m.1.to_string()) };
+            let mut s = Scen::new();
+            s.spec = bad;
+            for _ in 0..20000 { s.serial(); }     // serials of the new certificates away from the existing ones
+            let mut keys: Vec<usize> = vec![7, 8, 9, 10, 11];
+            keys.truncate((*depth).min(5));
+            if *cycle && *depth >= 2 { let k0 = keys[0]; let n = keys.len(); keys[n - 1] = k0; }
+            let ids = s.chain(&parent, "Z", *depth, &keys, &host, &module, inherit());
+            // payload at every level, so that a chain cut at the wrong place shows
+            for (i, id) in ids.iter().enumerate() { s.add_roa(id, &format!("z{}.roa", i), 64496, &[(&format!("10.0.{}.0/24", 100 + i), None)]); }
+            bad = s.spec;
         }
         _ => { }
     }
@@ -445,8 +462,9 @@ static BASELINES: Mutex<Option<HashMap<String, Arc<Mutex<Option<Arc<RunResult>>>
 fn run_case(input: &Value) -> CaseOut {
     let inp: Input = serde_json::from_value(input.clone()).expect("input");
     let (base, bad, step) = twins(&inp);
-    // static tables from the baseline description (both twins have the same structure)
-    let tb = build(&base).unwrap_or_else(|e| panic!("build: {}", e)).truth;
+    // static tables from the baseline description (both twins have the same structure; for `Deep` the faulty
+    // description is the baseline plus a chain inside r, so the tables come from it)
+    let tb = build(if matches!(inp.brk, Break::Deep { .. }) { &bad } else { &base }).unwrap_or_else(|e| panic!("build: {}", e)).truth;
     let mut modules: BTreeSet<String> = tb.cas.iter().map(|c| c.module.clone()).collect();
     for t in &tb.tals { for u in &t.uris { modules.insert(u.module.clone()); } }
     let ids = Ids {
@@ -668,6 +686,19 @@ fn gen(rng: &mut Rng, tier: &str) -> Vec<(String, Value)> {
         if thorough { for r in &repos3 { out.push(case("timeout-accept-fresh".into(), &w3, r, &accept, "fresh", Break::Timeout)); } }
         let _ = rng.next();
         return out
+    }
+    // structure inside r that the engine must cut: a chain deeper than max-ca-depth, a key re-used down the chain
+    for r in &repos3 {
+        for (pn, cfg) in [("accept", &accept), ("reject", &reject)] {
+            for mode in ["fresh", "history"] {
+                // (a key re-used down the chain is C07's subject: this harness identifies a CA by its id, not by its key)
+                for (depth, cycle, limit) in [(4usize, false, 3usize), (5, false, 4), (2, false, 1)] {
+                    if !thorough && pn == "accept" && mode == "history" { continue }
+                    let c = RunCfg { max_ca_depth: limit, ..cfg.clone() };
+                    out.push(case(format!("deep{}{}-limit{}-{}-{}", depth, if cycle { "cycle" } else { "" }, limit, pn, mode), &w3, r, &c, mode, Break::Deep { depth, cycle }));
+                }
+            }
+        }
     }
     // 4 validation threads
     let par = RunCfg { validation_threads: 4, ..reject.clone() };
